@@ -2013,4 +2013,123 @@ fn ack_timeouts_body() {
     std::mem::forget(r); std::mem::forget(st);
 }
 
+// ------------------------------------------------------------------------------------------------
+// The send loop (service_queue_aux) with the encoder, last-chance validation and completion replaced by recorders:
+// WHICH packet of an operation is handed to the encoder, WHEN validation and alias resolution happen, and when the
+// loop stops. (What the encoder and the validators do is decided by the C02 / C16 harnesses.)
+// ------------------------------------------------------------------------------------------------
+
+static mut ENC_RESETS: usize = 0;
+static mut ENC_KIND: [u8; 4] = [0; 4];     // packet type handed to Encoder::reset: 3 publish, 6 pubrel, 8 subscribe, 14 disconnect, 4 puback, 12 pingreq, 1 connect
+static mut ENC_PID: [u16; 4] = [0; 4];
+static mut ENC_SKIP_TOPIC: [bool; 4] = [false; 4];
+static mut VALIDATE_CALLS: usize = 0;
+static mut VALIDATE_FAIL: bool = false;
+static mut VALIDATE_SAW_ID: u16 = 0;
+
+fn packet_kind(p: &MqttPacket) -> (u8, u16) {
+    match p {
+        MqttPacket::Connect(_) => (1, 0), MqttPacket::Publish(x) => (3, x.packet_id), MqttPacket::Puback(x) => (4, x.packet_id), MqttPacket::Pubrec(x) => (5, x.packet_id),
+        MqttPacket::Pubrel(x) => (6, x.packet_id), MqttPacket::Pubcomp(x) => (7, x.packet_id), MqttPacket::Subscribe(x) => (8, x.packet_id),
+        MqttPacket::Unsubscribe(x) => (10, x.packet_id), MqttPacket::Pingreq(_) => (12, 0), MqttPacket::Disconnect(_) => (14, 0), _ => (99, 0),
+    }
+}
+
+fn stub_encoder_reset(_this: &mut crate::encode::Encoder, packet: &MqttPacket, context: &crate::encode::EncodingContext) -> GneissResult<()> {
+    let (k, pid) = packet_kind(packet);
+    unsafe { if ENC_RESETS < 4 { ENC_KIND[ENC_RESETS] = k; ENC_PID[ENC_RESETS] = pid; ENC_SKIP_TOPIC[ENC_RESETS] = context.outbound_alias_resolution.skip_topic; } ENC_RESETS += 1; }
+    Ok(())
+}
+
+/// every packet fits into the buffer in one go: writes one marker byte
+fn stub_encoder_encode(_this: &mut crate::encode::Encoder, _packet: &MqttPacket, dest: &mut Vec<u8>) -> GneissResult<crate::encode::EncodeResult> {
+    dest.push(0xAA);
+    Ok(crate::encode::EncodeResult::Complete)
+}
+
+fn stub_validate_internal(packet: &MqttPacket, _context: &crate::validate::OutboundValidationContext) -> GneissResult<()> {
+    unsafe { VALIDATE_CALLS += 1; VALIDATE_SAW_ID = packet_kind(packet).1; }
+    if unsafe { VALIDATE_FAIL } { return Err(GneissError::new_packet_validation(crate::mqtt::PacketType::Publish, "gv: stub validation failure")); }
+    Ok(())
+}
+
+/// shape: 0 = QoS1 publish in the user queue, 1 = QoS2 publish with PUBREL slot in the high-priority queue (PUBREC received),
+/// 2 = retransmitted QoS2 publish with PUBREL slot in the retransmission queue (resumed session), 3 = DISCONNECT in the high-priority
+/// queue followed by a PINGREQ, 4 = publish that fails last-chance validation, 5 = aliased publish that fails last-chance validation (manual resolver)
+fn send_loop_body(shape: u8) {
+    done_reset();
+    unsafe { ENC_RESETS = 0; VALIDATE_CALLS = 0; VALIDATE_FAIL = shape == 4 || shape == 5; }
+    let mut st = mk_state(ProtocolStateType::Connected);
+    st.current_settings = Some(NegotiatedSettings { receive_maximum_from_server: 10, ..Default::default() });
+    let pid: u16 = kani::any();
+    kani::assume(pid != 0);
+    match shape {
+        0 => { st.operations.insert(1, mk_publish_op(1, None, QualityOfService::AtLeastOnce, false)); st.user_operation_queue.push_back(1); }
+        1 | 2 => {
+            let mut o = mk_publish_op(1, Some(pid), QualityOfService::ExactlyOnce, shape == 2);
+            o.qos2_pubrel = Some(Box::new(MqttPacket::Pubrel(PubrelPacket { packet_id: pid, ..Default::default() })));
+            st.operations.insert(1, o);
+            st.allocated_packet_ids.insert(pid, 1);
+            if shape == 1 { st.pending_publish_operations.insert(pid, 1); st.high_priority_operation_queue.push_back(1); } else { st.resubmit_operation_queue.push_back(1); }
+        }
+        3 => {
+            st.operations.insert(1, mk_internal_op(1, MqttPacket::Disconnect(DisconnectPacket { ..Default::default() })));
+            st.high_priority_operation_queue.push_back(1);
+            st.operations.insert(2, mk_internal_op(2, MqttPacket::Pingreq(PingreqPacket {})));
+            st.high_priority_operation_queue.push_back(2);
+        }
+        5 => {
+            // manual alias resolver, server allows 5 aliases; the publish asks for alias 1 on topic "t" and then FAILS send-time validation
+            let mut resolver = crate::alias::OutboundAliasResolverFactory::new_manual_factory()();
+            resolver.reset_for_new_connection(5);
+            st.outbound_alias_resolver = std::cell::RefCell::new(resolver);
+            let mut o = mk_publish_op(1, None, QualityOfService::AtMostOnce, false);
+            if let MqttPacket::Publish(p) = &mut *o.packet { p.topic = "t".to_string(); p.topic_alias = Some(1); }
+            st.operations.insert(1, o);
+            st.user_operation_queue.push_back(1);
+        }
+        _ => {
+            st.operations.insert(1, mk_publish_op(1, None, QualityOfService::AtLeastOnce, false));
+            st.user_operation_queue.push_back(1);
+        }
+    }
+    let mut to_socket: Vec<u8> = Vec::with_capacity(16);
+    let now = at(kani::any::<u32>() as u64);
+    let r = {
+        let mut sctx = ServiceContext { to_socket: &mut to_socket, current_time: now };
+        st.service_queue(&mut sctx, ProtocolQueueServiceMode::All)
+    };
+    assert!(r.is_ok());
+    let resets = unsafe { ENC_RESETS };
+    match shape {
+        0 => {
+            // bound to a fresh id BEFORE validation and encoding; sent as PUBLISH with that id; then awaits its ack
+            assert!(resets == 1 && unsafe { ENC_KIND[0] } == 3 && unsafe { ENC_PID[0] } != 0 && unsafe { VALIDATE_CALLS } == 1 && unsafe { VALIDATE_SAW_ID } == unsafe { ENC_PID[0] });
+            assert!(st.pending_publish_operations.get(&unsafe { ENC_PID[0] }) == Some(&1) && st.pending_write_completion && to_socket.len() == 1);
+        }
+        1 | 2 => {
+            // once a PUBREC has been received the PUBLISH is never sent again: the PUBREL with the same id goes out
+            assert!(resets == 1 && unsafe { ENC_KIND[0] } == 6 && unsafe { ENC_PID[0] } == pid, "gv: after PUBREC the PUBREL (same id) is sent, never the PUBLISH again");
+            assert!(st.pending_publish_operations.get(&pid) == Some(&1) && st.allocated_packet_ids.get(&pid) == Some(&1) && done_n() == 0);
+        }
+        3 => {
+            // once a DISCONNECT has been written nothing further is sent on that connection
+            assert!(resets == 1 && unsafe { ENC_KIND[0] } == 14, "gv: nothing is sent after a DISCONNECT has been written");
+            assert!(st.state == ProtocolStateType::PendingDisconnect && st.high_priority_operation_queue.len() == 1 && to_socket.len() == 1);
+        }
+        5 => {
+            assert!(resets == 0 && done_n() == 1 && done(0).1 == E_VALIDATION);
+            // the PUBLISH that would have announced "alias 1 = t" was never sent, so the next publish on that topic must still carry the topic
+            let next = st.outbound_alias_resolver.borrow_mut().resolve_and_apply_topic_alias(&Some(1), "t");
+            assert!(!next.skip_topic, "gv: an alias binding that was never transmitted (operation failed validation after alias resolution) must not be relied upon");
+        }
+        _ => {
+            // an operation failing last-chance validation is failed locally with that error and never reaches the encoder; the loop goes on
+            assert!(resets == 0 && done_n() == 1 && done(0).0 == 1 && done(0).1 == E_VALIDATION && to_socket.is_empty(), "gv: an operation failing send-time validation is failed locally and never encoded");
+            assert!(st.current_operation.is_none() && st.user_operation_queue.is_empty() && st.pending_publish_operations.is_empty());
+        }
+    }
+    std::mem::forget(r); std::mem::forget(st);
+}
+
 include!("protocol_gen.rs");
